@@ -28,8 +28,9 @@ certified) servers, sorted by (not preferred, SHA-1(storage_index + seed)) with 
 seed rule recomputed here; equal keys (6th server) may come in either order.  Every client
 (insertion order) is compared with the same reference, hence with each other.
 
-NOT covered here: the grid part of DESIGN.md (immutable upload / mutable publish never send
-allocate_buckets / writev to an unpermitted server) - it needs the virtual grid (Engine G).
+Grid half (Engine G, default schedule): 3-5 real storage servers of which 1-2 are not permitted;
+an immutable upload and an SDMF / MDMF create + overwrite must never send allocate_buckets / a
+test-and-set write / write / close to an unpermitted server.
 """
 import contextlib
 import hashlib
@@ -50,7 +51,7 @@ LEVEL = "exploration"
 ASSUMPTIONS = [
     "universe of 5 (thorough 6) servers, 4 storage indexes; get_servers_for_psi has no size-dependent branch",
     "set iteration inside the broker is over id()-hashed server objects; it is varied by building an independent broker and fresh objects per insertion order (PYTHONHASHSEED has no influence on it)",
-    "the upload paths that consume get_servers_for_psi(for_upload=True) (immutable/upload.py, mutable/publish.py) are not exercised: needs the virtual grid",
+    "the upload paths (immutable/upload.py, mutable/publish.py) are exercised on the virtual grid with vt.grid.VBroker (a permuting broker with the real one's for_upload semantics), at the default schedule only",
     "storage_client.py builds its verifier without now_fn; allmydata.grid_manager.current_datetime_with_zone is rebound to the virtual clock; twisted's plugin scan is done once and cached",
     "servers whose permutation seeds are equal may be returned in either relative order (statement silent)",
 ]
